@@ -47,6 +47,11 @@ h("c09_data_roundtrip_content_t", "fdl_telegram.rs", TG, ["C09"], tier="thorough
 h("c09_data_roundtrip_all_lengths_t", "fdl_telegram.rs", TG, ["C09"], tier="thorough", timeout_s=3600, mem_gb=16, weight=3, functions=CODEC,
   bounds="every payload length 0..=246-#SAPs (LE <= 249) with one symbolic fill byte; unwind 100", obligation="wire bytes == reference frame, round trip, for all lengths up to the frame limit")
 
+for nm, desc in (("246", "246 bytes, no SAPs (LE = 249, the largest frame)"), ("245_dsap", "245 bytes with DSAP"), ("245_ssap", "245 bytes with SSAP"), ("244_both", "244 bytes with both SAPs"),
+                 ("128_both", "128 bytes with both SAPs"), ("8", "8 bytes, no SAPs (SD3)"), ("7_dsap", "7 bytes with DSAP (LE = 11: SD3)"), ("9", "9 bytes, no SAPs (SD2 just above SD3)")):
+    h("c09_roundtrip_len_" + nm, "fdl_telegram.rs", TG, ["C09"], timeout_s=900, functions=CODEC,
+      bounds="payload of exactly " + desc + "; addresses 0..127, SAP values and function code symbolic, payload content concrete (0xA5); unwind 258",
+      obligation="wire bytes == reference frame, lengths agree, decode gives the identical header/payload consuming exactly the frame")
 # ---- C10 -------------------------------------------------------------------------------------
 DEC = ["Telegram::deserialize", "DataTelegram::deserialize", "TokenTelegram::deserialize", "FunctionCode::from_byte",
        "Telegram::telegram_len"]
@@ -163,7 +168,9 @@ L2STUBS = ["TokenRing::witness_token_pass / set_next_station / remove_station ->
            "log::__private_api::loc -> static location", "PHY = telegram-level harness PHY (TPhy): receive helpers modelled by their contract (proved against the real helpers by the C16 harnesses)"]
 L2BOUNDS = "ONE poll() from ANY station state of this variant under Inv_FDL: address/HSA/gap factor symbolic, ring view (LAS state, NS, PS) symbolic, GAP state, timestamps in [0, 2^40) us, `now` symbolic, PHY busy flag symbolic, receive buffer = 0..2 arbitrary telegrams (token/SC/data, payload <= 3 B) + tail (empty/incomplete/garbage); baud 500 kbit/s, Tslot 300 bit, TTR 32436 bit fixed"
 def l2(name, fn, props, obligation, log_variant=True, timeout_s=1200, weight=2, unwind=5, extra_panic=()):
-    h(name, "fdl_active.rs", AV, props, panic_props=["C05"] + list(extra_panic), timeout_s=timeout_s, mem_gb=10, weight=weight, stubbing=True, functions=L2F + fn, stubs=L2STUBS,
+    # With a logging variant present, the plain variant (same oracle, log arguments not evaluated)
+    # adds nothing for the quick tier and is run in the thorough tier only.
+    h(name, "fdl_active.rs", AV, props, panic_props=["C05"] + list(extra_panic), tier="thorough" if log_variant else "quick", timeout_s=timeout_s, mem_gb=10, weight=weight, stubbing=True, functions=L2F + fn, stubs=L2STUBS,
       bounds=L2BOUNDS + "; unwind %d" % unwind, obligation=obligation)
     if log_variant:
         h(name + "_log", "fdl_active.rs", AV, props, panic_props=["C05"] + list(extra_panic), timeout_s=timeout_s, mem_gb=10, weight=weight, stubbing=True, functions=L2F + fn, stubs=L2STUBS,
@@ -193,6 +200,11 @@ for nm, k in [("l2_await_data_response_1app", 1), ("l2_await_data_response_2apps
 h("c20_kernel", "harness.rs", "harness", ["C20"], crate="ext-gsd", timeout_s=300, functions=["UserPrmDataType::{write_value_to_slice,size}"],
   bounds="ALL 8 data types (bit index 0..7, bit areas first<=last<=7), ALL i64 values, ALL 4-byte windows",
   obligation="Ok iff value in the type's exact range (signed types: signed range); on Ok the parameter's bits == big-endian two's complement of the value and no other bit changes (BitArea's 'no other bit' part is carved out: known finding F9, asserted by c20_kernel_bitarea_frame_witness); on Err the window is unchanged; size() consistent")
+h("c20_builder_set_prm", "harness.rs", "harness", ["C20"], crate="ext-gsd", tier="thorough", timeout_s=3600, mem_gb=14, weight=3, stubbing=True,
+  functions=["PrmBuilder::{new,write_const_prm_data,write_default_prm_data,update_prm_data_len,set_prm,as_bytes}", "UserPrmData::get_prm", "UserPrmDataDefinition::write_constrained_value_to_slice", "PrmValueConstraint::assert_valid"],
+  stubs=["std::sync::Arc::drop_slow -> no-op (all Arcs leaked on purpose)"],
+  bounds="4 symbolic constant bytes, two parameters 'a','b' at symbolic offsets 0..=2 (may share a byte), types Unsigned8/16, Signed8/16, Bit(0..7), BitArea(0,7), symbolic defaults and constraints (none / MinMax), one set_prm call with symbolic value on 'a' or an unknown name; unwind 10",
+  obligation="new(): Err iff a default does not fit its type; block == constants overlaid with defaults, right length; set_prm: Ok iff name known, constraint admits, value fits; block afterwards == reference overlay (unchanged on error)")
 h("c20_kernel_bitarea_frame_witness", "harness.rs", "harness", ["C20"], crate="ext-gsd", timeout_s=300, functions=["UserPrmDataType::write_value_to_slice"],
   bounds="ALL bit areas, ALL accepted values, ALL bytes", obligation="witness of known finding F9: writing a bit area changes no bit outside the area")
 
@@ -273,7 +285,7 @@ PROPERTIES = {
     "C09": {
         "claim": "Bounded: for every header (DA/SA 0..127, any SAP options, any function code) and every payload within the stated length/content bounds the real encoder's bytes equal an independent reference frame encoder, the reported lengths agree, and the real decoder returns the identical telegram consuming exactly the frame. Function codes: exhaustive over all bytes and all values.",
         "assumptions": ["addresses 0..=127 (bit 8 of the address octets is the extension bit)",
-                        "payload content fully symbolic only up to 8 (quick) / 64 (thorough) bytes; longer payloads with one symbolic fill byte (thorough)"],
+                        "payload content fully symbolic only up to 8 (quick) / 64 (thorough) bytes; boundary layouts (246 no SAPs, 245 with one SAP, 244 with both, 128 with both, 7/8/9 around SD3) individually with concrete payload content; all lengths at once only in the thorough harness (no verdict within 1 h so far)"],
         "outside": ["content-dependent behaviour for payloads > 64 bytes (content only flows through a copy and the additive checksum)",
                     "callers passing pdu_len beyond the frame limit (serialize asserts LE <= 249)"],
     },
